@@ -2,7 +2,7 @@
 bitstream-recording helpers of decoder/io.py."""
 from pyvc.api import *
 from contracts.c02_common import *
-from contracts.c02_stream import FRAME_IO, IO_POST, is_parse_code  # noqa: F401
+from contracts.c02_stream import lcv_ok, FRAME_IO, IO_POST, is_parse_code  # noqa: F401
 from vc2_conformance.decoder.exceptions import *  # noqa: F401,F403
 from vc2_conformance.pseudocode.video_parameters import VideoParameters
 
@@ -120,8 +120,8 @@ class _scp:
 
 # ---- sequence_header.py ------------------------------------------------------------------------------------
 
-HDR_MOD = FRAME_IO + ['state["_level_constrained_values"]', 'state["_expected_major_version"]']
-HDR_PRE = ["dinv(state)", 'has(state, "major_version")', "vp_full(video_parameters)"]
+HDR_MOD = FRAME_IO + ['state["_level_constrained_values"]', "state.g_lcv_level", 'state["_expected_major_version"]']
+HDR_PRE = ["dinv(state)", 'has(state, "major_version")', "vp_full(video_parameters)", "lcv_ok(state)"]
 HDR_POST = IO_POST + ["vp_full(video_parameters)", 'has(state, "_expected_major_version") == (old(has(state, "_expected_major_version")) or has(state, "_expected_major_version"))']
 
 
@@ -131,7 +131,7 @@ def _hdr(name, keys):
         requires=list(HDR_PRE),
         modifies=HDR_MOD + ['video_parameters["%s"]' % k for k in keys],
         raises={"ConformanceError": None},
-        ensures=IO_POST + ["vp_full(video_parameters)", 'implies(old(has(state, "_expected_major_version")), has(state, "_expected_major_version"))'],
+        ensures=IO_POST + ["vp_full(video_parameters)", "lcv_ok(state)", 'implies(old(has(state, "_expected_major_version")), has(state, "_expected_major_version"))'],
     ))
     cls.__module__ = __name__
     spec(SH + name)(cls)
@@ -154,10 +154,10 @@ _hdr("color_spec", ["color_primaries_index", "color_matrix_index", "transfer_fun
 class _sp:
     args = {"state": STATE, "base_video_format": "int"}
     result = VP
-    requires = ["dinv(state)", 'has(state, "major_version")', "0 <= base_video_format and base_video_format <= 22"]
+    requires = ["dinv(state)", 'has(state, "major_version")', "0 <= base_video_format and base_video_format <= 22", "lcv_ok(state)"]
     modifies = HDR_MOD
     raises = {"ConformanceError": None}
-    ensures = IO_POST + ["vp_full(result)", "is_fresh(result)", 'implies(old(has(state, "_expected_major_version")), has(state, "_expected_major_version"))']
+    ensures = IO_POST + ["vp_full(result)", "is_fresh(result)", "lcv_ok(state)", 'implies(old(has(state, "_expected_major_version")), has(state, "_expected_major_version"))']
 
 
 @spec(SH + "parse_parameters")
@@ -170,10 +170,11 @@ class _pp:
     raises = {"ConformanceError": None}
     ensures = IO_POST + [
         'has(state, "major_version") and has(state, "minor_version") and has(state, "profile") and has(state, "level")',
-        'has(state, "_level_sequence_matcher") and has(state, "_level_constrained_values") and has(state, "_expected_major_version")',
+        'has(state, "_level_sequence_matcher") and lcv_ok(state) and has(state, "_expected_major_version")',
         'state["major_version"] >= 1 and state["minor_version"] == 0 and (state["profile"] == 0 or state["profile"] == 3)',
         'state["_level_sequence_matcher"] != state["_generic_sequence_matcher"]',
         'implies(old(has(state, "_level_sequence_matcher")), state["_level_sequence_matcher"] == old(state["_level_sequence_matcher"]))',
+        'implies(not old(has(state, "_level_sequence_matcher")), is_fresh(state["_level_sequence_matcher"]))',
     ]
 
 
@@ -181,7 +182,7 @@ class _pp:
 def hdr_known(state):
     """A sequence header has been parsed in this sequence (everything later data units rely on)."""
     return (has(state, "major_version") and has(state, "minor_version") and has(state, "profile") and has(state, "level")
-            and has(state, "_level_sequence_matcher") and has(state, "_level_constrained_values") and has(state, "_expected_major_version")
+            and has(state, "_level_sequence_matcher") and lcv_ok(state) and has(state, "_expected_major_version")
             and state["major_version"] >= 1 and (state["profile"] == 0 or state["profile"] == 3)
             and has(state, "picture_coding_mode") and (state["picture_coding_mode"] == 0 or state["picture_coding_mode"] == 1)
             and coding_params_known(state)
@@ -202,4 +203,19 @@ class _seq_hdr:
     raises = {"ConformanceError": None}
     ensures = ["dinv(state)", 'not has(state, "_recorded_bytes")', "hdr_known(state)", "vp_full(result)",
                'state["_level_sequence_matcher"] != state["_generic_sequence_matcher"]',
-               'implies(old(has(state, "_level_sequence_matcher")), state["_level_sequence_matcher"] == old(state["_level_sequence_matcher"]))']
+               'implies(old(has(state, "_level_sequence_matcher")), state["_level_sequence_matcher"] == old(state["_level_sequence_matcher"]))',
+               'implies(not old(has(state, "_level_sequence_matcher")), is_fresh(state["_level_sequence_matcher"]))']
+    SAME_BYTES = ("a repeated sequence header returns normally only if its recorded bytes equal the previous header's bytes "
+                  "(SequenceHeaderChangedMidSequence otherwise); parsing is a deterministic function of those bytes, so every value read "
+                  "is the same as before.  This is a relational (two-run) fact that a per-call contract cannot prove.")
+    assumed_ensures = [
+        ('implies(old(has(state, "_last_sequence_header_bytes")) and old(has(state, "profile")), state["profile"] == old(state["profile"]) '
+         'and state["major_version"] == old(state["major_version"]) and state["level"] == old(state["level"]))', SAME_BYTES),
+        ('implies(old(has(state, "_last_sequence_header_bytes")) and old(has(state, "luma_width")), state["luma_width"] == old(state["luma_width"]) '
+         'and state["luma_height"] == old(state["luma_height"]) and state["color_diff_width"] == old(state["color_diff_width"]) '
+         'and state["color_diff_height"] == old(state["color_diff_height"]) and state["luma_depth"] == old(state["luma_depth"]) '
+         'and state["color_diff_depth"] == old(state["color_diff_depth"]) and state["picture_coding_mode"] == old(state["picture_coding_mode"]))', SAME_BYTES),
+    ]
+
+
+from contracts.c02_corpus import MONITOR_DRIVER  # noqa: E402,F401  (native fallback: run-time monitoring over corpus streams)
